@@ -1128,6 +1128,15 @@ func genC12(r *hysim.Rand, tier string) *hysim.Script {
 			}
 		}
 		sc.Ops = append(sc.Ops, hysim.Op{K: "path", A: []int64{capB, owd, 1 << 40, 0, 0, 1, 0, r.Pick64(0, 0, 1000), r.Pick64(2, 2, 1)}})
+		if sc.Cfg["high_bdp"] == 0 && r.Chance(1, 3) {
+			// a request/response prelude: small exchanges, the pipe drains completely each time, for
+			// more rounds than any profile stays in start-up; only then the backlogged transfer
+			sz := r.Pick64(1200, 2500, 6000)
+			for k := r.Range(8, 40); k > 0; k-- {
+				sc.Ops = append(sc.Ops, hysim.Op{K: "app", A: []int64{sz, 0, 1}}, hysim.Op{K: "run", A: []int64{owd*2*3 + 40000}})
+			}
+			sc.Cfg["prelude"] = 1
+		}
 		sc.Ops = append(sc.Ops, hysim.Op{K: "app", A: []int64{P * 1280 * 2, 0}})
 		sc.Ops = append(sc.Ops, hysim.Op{K: "run", A: []int64{T / 4}})
 		if r.Chance(1, 2) {
@@ -1254,7 +1263,7 @@ func execC12(x *hysim.Run) {
 			appBytes += n
 			s.sizeMode = clamp(op.Arg(1), 0, 3)
 			s.sched = true
-			if o.bulkSince == 0 {
+			if o.bulkSince == 0 && op.Arg(2) != 1 { // (A[2] == 1: a small request/response exchange before the bulk phase)
 				o.bulkSince = s.now
 			}
 			x.Ev("op%d app +%d bytes mode=%d", i, n, s.sizeMode)
